@@ -82,7 +82,11 @@ func c09env(c *h.Ctx, idx int, staged bool, assign string, r *h.Rand, special bo
 	for _, k := range sortedKeys(defs[2]) {
 		ef = append(ef, k+"="+defs[2][k])
 	}
-	h.WriteFile(real+"/vars.env", strings.Join(ef, "\n")+"\n")
+	envText := strings.Join(ef, "\n")
+	if idx%2 == 0 {
+		envText += "\n" // every second case: no newline after the last line of the env_file
+	}
+	h.WriteFile(real+"/vars.env", envText)
 	format, argv := "ENV", ""
 	all := append(append([]string{}, names...), "PARENT_ONLY", "TASK_NAME", "VOTHER")
 	for _, k := range all {
